@@ -247,6 +247,7 @@ def gen_rep(out, broken):
                 a, b = s.value.elts
                 ok = (ast.unparse(a) == "float({})".format(pp[1])
                       and ast.unparse(b) in ("float({0}) if {0} else 0.0".format(pp[2]),
+                                             "float({0}) if {0} is not None else 0.0".format(pp[2]),
                                              "float({})".format(pp[2])))
     if not ok:
         raise Unsupported("{}: MeasuredValue.__init__ does not store `float(data), float(error) if "
